@@ -35,8 +35,9 @@ theorem quiet_clientGone (t : Topo) {s : State} (h0 : s.gone 0 = false) (c : Nat
 
 theorem quiet_handleRequest (t : Topo) {s : State} (h0 : s.gone 0 = false) (c m : Nat)
     (em : List (Dest × Msg)) : Quiet s (handleRequest t s c m em) := by
-  have hbad : Quiet s (clientGone t (s.put 0 [(.client c, .error)]) c em) :=
-    (quiet_put s 0 _).trans (quiet_clientGone t (by simpa [State.gone] using h0) c em)
+  have hbad : Quiet s (clientGone t { s with toClient := upd s.toClient c (s.toClient c ++ [.error]) } c em) :=
+    (WLe.of_eq rfl rfl rfl : Quiet s { s with toClient := upd s.toClient c (s.toClient c ++ [.error]) }).trans
+      (quiet_clientGone t (by simpa [State.gone] using h0) c em)
   unfold handleRequest
   simp only
   split
@@ -57,7 +58,7 @@ theorem gone_false_of_loopOk {t : Topo} {s : State} {p : Nat} (h : s.loopOk t p 
   unfold State.loopOk at h
   unfold State.gone
   simp only [Bool.and_eq_true] at h
-  simp [h.1.1.2, h.1.2]
+  simp [h.1.2, h.2]
 
 theorem parent_of_isChild {t : Topo} {p e : Nat} (h : t.isChild p e = true) : t.parent e = p := by
   unfold Topo.isChild at h
@@ -247,28 +248,14 @@ theorem flush_wle {t : Topo} {s s' : State} {n : Nat} (h : flush t s n = some s'
     · refine Quiet.wle ?_ _; exact WLe.of_eq rfl rfl rfl
     · exact hq0.wle _
 
-theorem quiet_baseShutdown (t : Topo) {s : State} {p : Nat} (hp : s.gone p = false) :
-    Quiet s (baseShutdown t s p) :=
-  WLe.of_shut hp rfl rfl (fun i => by
-    show (s.outbox i).length ≤ _
-    split <;> omega)
-
-theorem outReset_quiet {t : Topo} {s s' : State} {n : Nat} (h : outReset t s n = some s') : Quiet s s' := by
-  unfold outReset at h
+theorem flushDrop_quiet {t : Topo} {s s' : State} {n : Nat} (h : flushDrop t s n = some s') : Quiet s s' := by
+  unfold flushDrop at h
   split at h
   · cases h
-  rename_i hg
-  simp only [Bool.not_eq_true', Bool.not_eq_false, Bool.and_eq_true] at hg
-  obtain ⟨⟨⟨_, ha⟩, hr⟩, _⟩ := hg
-  have hp : s.gone n = false := by simp [State.gone, ha, hr]
   split at h
-  · split at h
-    · cases h
-    cases h
-    rename_i e _ _ _ _
-    have h0 : Quiet s { s with downOpen := upd s.downOpen e false } := WLe.of_eq rfl rfl rfl
-    exact (h0.trans (quiet_baseShutdown t (by simpa [State.gone] using hp))).trans (WLe.of_eq rfl rfl rfl)
   · cases h
+  split at h <;> cases h
+  exact WLe.of_eq rfl rfl rfl
 
 theorem wsend_wle {t : Topo} {s s' : State} {w : Nat} {m : Msg} (h : wsend t s w m = some s') :
     WLe s s' (gAt s (.wsend w m)) := by
@@ -358,17 +345,16 @@ theorem crash_quiet {t : Topo} {s s' : State} {n : Nat} {tr : Bool} (h : crash t
       · simp [hi]
   · cases h; exact wle_kill s n
 
-/-- every transition except `wake` against the weights -/
-theorem step_wle {t : Topo} {s s' : State} {l : Label} (h : step t s l = some s')
-    (hw : ∀ n c, l ≠ .wake n c) : WLe s s' (gAt s l) := by
+/-- every transition against the weights -/
+theorem step_wle {t : Topo} {s s' : State} {l : Label} (h : step t s l = some s') :
+    WLe s s' (gAt s l) := by
   cases l with
   | crash n tr => exact (crash_quiet h).wle _
   | recvEmp p e em f => exact (recvEmp_wle h).1.wle _
   | recvUp n em f => exact (recvUp_quiet h).wle _
   | recvClient c em f => exact (recvClient_quiet h).wle _
   | flush n => exact flush_wle h
-  | outReset n => exact (outReset_quiet h).wle _
-  | wake n c => exact absurd rfl (hw n c)
+  | flushDrop n => exact (flushDrop_quiet h).wle _
   | wsend w m => exact wsend_wle h
   | wrecv w => exact (wrecv_quiet h).wle _
   | ccall c r => exact (ccall_quiet h).wle _
